@@ -508,7 +508,8 @@ writeloop:
 		case TagObjectStart:
 			dst = append(dst, '{')
 			stack = append(stack, stackObject)
-			// We should not emit commas.
+			// Always move into the object, also when the iterator was positioned by Advance.
+			i.addNext = 0
 			i.AdvanceInto()
 			continue
 		case TagObjectEnd:
@@ -520,6 +521,8 @@ writeloop:
 		case TagArrayStart:
 			dst = append(dst, '[')
 			stack = append(stack, stackArray)
+			// Always move into the array, also when the iterator was positioned by Advance.
+			i.addNext = 0
 			i.AdvanceInto()
 			continue
 		case TagArrayEnd:
